@@ -164,6 +164,7 @@ def vdesc(max_leaves=10, keys=None, objects=True, tuples=False, opaque=False,
                   st.lists(small, min_size=2, max_size=3)),
         st.sampled_from([{'$dna': 1}, {'$dna': [0, 1]}, {'$dna': [{'$t': [0, [1, 0.5]]}, 2]}]),
         st.just({'$o': 'Req', 'a': {}}), st.just({'$o': 'Req', 'a': {'r': 1}}),
+        st.sampled_from([{'$o': 'SD', 'a': {}}, {'$o': 'SD', 'a': {'x': [1, 2], 'y': {'$o': 'P', 'a': {'x': 1}}}}]),
     ))
   leaf = st.one_of(*leaves)
 
